@@ -445,6 +445,9 @@ func GenListSized(r *prng.R, idx, maxStyles, maxRegions, maxItems int) ListSpec 
 	for i := 0; i < n; i++ {
 		d := r.Range(100, 3000)
 		it := ItemSpec{StartMs: t, EndMs: t + d, Index: i + 1, Attrs: genItemAttrs(r)}
+		if r.Bool(0.03) { // times writers rarely see: negative, 100 hours and more
+			it.StartMs, it.EndMs = r.PickInt(-1500, -1, 359999999, 360000000, 400000000), r.PickInt(-1, 10, 360000001, 500000000)
+		}
 		if r.Bool(0.15) {
 			it.Index = 0
 		}
